@@ -56,7 +56,7 @@ class Spec:
             if n + self.g > self.F:
                 n = self.F - self.g
                 self.good, self.eof = 0, 1
-            else:
+            elif n > 0:
                 self.good, self.eof = 1, 0
             if n > 0 and (self.g + n > self.p or self.g < self.horizon):
                 self.in_scope = False
